@@ -11,7 +11,7 @@ def enc(s):
     out = []
     for b in s.encode("utf-8"):
         c = chr(b)
-        if c.isalnum() and b < 128 or c in "_.:/*":
+        if c.isalnum() and b < 128 or c in "_./*":
             out.append(c)
         else:
             out.append("%%%02X" % b)
